@@ -456,6 +456,9 @@ func (f *flaky) bad(c cid.Cid) bool {
 }
 
 func (f *flaky) Get(c context.Context, k cid.Cid) (ipld.Node, error) {
+	if err := c.Err(); err != nil { // the in-memory DAG service ignores contexts: honour them here
+		return nil, err
+	}
 	if f.bad(k) {
 		return nil, errFetch
 	}
@@ -467,6 +470,10 @@ func (f *flaky) GetMany(c context.Context, ks []cid.Cid) <-chan *ipld.NodeOption
 	go func() {
 		defer close(out)
 		for _, k := range ks {
+			if err := c.Err(); err != nil {
+				out <- &ipld.NodeOption{Err: err}
+				return
+			}
 			if f.bad(k) {
 				out <- &ipld.NodeOption{Err: errFetch}
 				return
@@ -593,14 +600,22 @@ func exec(c vh.Case, o *vh.Out) {
 			s.open(o, ds, root, t)
 		case s.dr == nil:
 			o.Emit("bad-op")
-		case len(f) == 2 && f[0] == "read":
+		case len(f) == 2 && (f[0] == "read" || f[0] == "ctxreadfull"):
 			k := vh.Atoi(f[1])
 			buf := make([]byte, k)
 			var n int
 			var err error
-			if k%2 == 0 {
+			switch {
+			case f[0] == "ctxreadfull":
+				// a context that governs this one call only: cancelled as soon as the call has returned.
+				// It must have no effect on any later call.
+				c2, cancel := context.WithCancel(context.Background())
+				n, err = s.dr.CtxReadFull(c2, buf)
+				cancel()
+				o.Kind("ctxreadfull")
+			case k%2 == 0:
 				n, err = s.dr.Read(buf)
-			} else {
+			default:
 				n, err = s.dr.CtxReadFull(ctx, buf)
 			}
 			got := buf[:n]
@@ -910,7 +925,15 @@ func genOps(r *vh.Rand, c *vh.Case, size, chunk int, n int) {
 					k = 0
 				}
 			}
-			c.Ops = append(c.Ops, fmt.Sprintf("read %d", k))
+			if r.Chance(1, 4) {
+				// per-call context, then (often) straight into WriteTo / Read / Seek
+				c.Ops = append(c.Ops, fmt.Sprintf("ctxreadfull %d", k))
+				if r.Chance(1, 2) {
+					c.Ops = append(c.Ops, vh.Pick(r, []string{"writeto", "writeto", fmt.Sprintf("read %d", size+2), fmt.Sprintf("seek %d 1", r.Range(1, 3))}))
+				}
+			} else {
+				c.Ops = append(c.Ops, fmt.Sprintf("read %d", k))
+			}
 		case 5, 6, 7, 8:
 			wh := vh.Pick(r, []int{0, 0, 1, 1, 2, 2, 3, 7})
 			off := r.Range(-size-2, size+2)
@@ -1039,6 +1062,10 @@ func gen(r *vh.Rand, tier string, n int, emit func(vh.Case)) {
 					continue
 				}
 				c.Ops = append(c.Ops, fmt.Sprintf("import %s %d %s %d %s %s %s %s", layout, w, rawf, seed, joinInts(sizes), joinInts(app), mods, t.String()))
+			}
+			if t.leaves() >= 8 && cr.Chance(1, 3) {
+				// a short per-call-context read at the start of a multi-leaf file, then drain it
+				c.Ops = append(c.Ops, fmt.Sprintf("ctxreadfull %d", cr.Range(1, chunk+1)), "writeto")
 			}
 			m := cr.Range(3, 30)
 			if tier == "thorough" {
